@@ -215,3 +215,7 @@ impl RuntimeState {
         }
     }
 }
+
+#[cfg(kani)]
+#[path = "/verif/kani/state.rs"]
+mod kani_verif;
